@@ -652,6 +652,8 @@ package larking
 
 //@ func (*Mux).serveHTTP serves C07 C09 partial ghost count post inv.init inv.keep dec index slice
 //@   requires m != nil && w != nil && r != nil
+//@   returns (rerr)
+//@   ensures [an-error-return-leaves-no-compressor-pending C04 C05] at "return err" zc == nil
 //@   count loads `m.loadState(`
 //@   count begins `sh.HandleRPC(ctx, &stats.Begin{`
 //@   count ends `sh.HandleRPC(ctx, &stats.End{`
@@ -1275,6 +1277,8 @@ package larking
 //@   count payloadEvents `sh.HandleRPC(`
 //@   ensures [one-in-payload-event-per-message C18] err == nil && old(s.method.hasBody) && s.stats != nil ==> payloadEvents == 1
 //@   ensures [at-most-one-in-payload-event C18] payloadEvents <= 1
+//@   count paramsets `s.params.set(`
+//@   ensures [no-in-payload-event-for-a-frame-that-was-not-decoded C18] err != nil && paramsets == 0 ==> payloadEvents == 0
 //@   assert atcall `sh.HandleRPC(` [in-payload-event-carries-the-decoded-message C18] ptr(pay(arg1), "stats.InPayload").Length == len(b)
 //@   witness verifWitnessWSPayloadStats for payload-event
 //@   ensures [no-phantom-message-without-a-body C06] !old(s.method.hasBody) && old(s.recvN) >= 1 ==> err == io.EOF
